@@ -78,17 +78,17 @@ func (m *MemoryHeightIterator) Domain() (start []byte, end []byte) {
 }
 
 func (m *MemoryHeightIterator) Valid() bool {
-	if m.endIdx < m.startIdx || m.curIdx > m.endIdx {
-		return false
-	}
-	if (m.end != "" && m.sortedKeys[m.curIdx] >= m.end) || (m.start != "" && m.sortedKeys[m.curIdx] < m.start) {
-		return false
-	}
 	if m.sortedKeys == nil || m.dataset == nil {
 		return false // we closed!!
 	}
 	if m.curIdx < 0 || m.curIdx > len(m.sortedKeys)-1 {
 		return false // out of range!
+	}
+	if m.endIdx < m.startIdx || m.curIdx > m.endIdx {
+		return false
+	}
+	if (m.end != "" && m.sortedKeys[m.curIdx] >= m.end) || (m.start != "" && m.sortedKeys[m.curIdx] < m.start) {
+		return false
 	}
 	return true
 
